@@ -138,7 +138,7 @@ ObsNoWorkerLeft == Judged => obs.left = 0
 (* passed its pause check is written, and keep-alive lines flow when data remains to be sent.    *)
 Paused == obs.pause
 ShortPause == obs.pausems * 2 <= obs.timeout * 1000
-ObsShortPauseCompletes == (Judged /\ Paused /\ ShortPause) => (obs.hung = {} /\ \A r \in Roles : result[r] = "ok")
+ObsShortPauseCompletes == (Judged /\ Paused /\ ShortPause /\ ~obs.silence) => (obs.hung = {} /\ \A r \in Roles : result[r] = "ok")
 PauseBoundMs == obs.pausems * 3 + 2 * obs.timeout * 1000 + 1500 + 8000
 ObsPauseNoHang == (Judged /\ Paused) => (obs.hung = {} /\ \A r \in Roles : obs.since[r] <= PauseBoundMs)
 (* per pause at most the one chunk that had already passed its pause check *)
